@@ -14,9 +14,10 @@
    * [graph_succ]/[graph_roots]: project-wide graphs leave out entities with "graph: false";
    * [add_nodes]/[bfs]: FortranGraph.__init__/add_nodes/add_to_graph/_add_nested_nodes — hop by hop,
                        graph_maxdepth, the all-or-nothing graph_maxnodes test, truncated, hop_nodes;
-   * [run]           : Documentation.__init__'s registration loop followed by GraphManager.graph_all
-                       (per-entity graphs on the registry as it is at that moment, then the four
-                       project-wide graphs whose roots may create further nodes).
+   * [run]           : Documentation.__init__'s registration loop and the nodes GraphManager.graph_all
+                       creates beforehand for the call graph's extra roots (visible internal procedures,
+                       generic / multi-target bindings), then the per-entity graphs and the four
+                       project-wide graphs, all on the same registry (C13_no_late_nodes).
    Python sets are lists without duplicates; iteration order (sorted(...) in the code) only
    decides the order of lines in the DOT source and is not modelled: results are compared as sets.
 
